@@ -1,8 +1,82 @@
-import ErdosVerif.Driver.Util
-namespace ErdosVerif.Driver.Time
-open Lean ErdosVerif.Driver
+/-
+Driver for suite "time" (M1, property C16).
 
-/-- Suite handler: one JSON case in, one JSON reply out (stub until the suite is built). -/
-def handle (_j : Json) : Json := Json.mkObj [("protocol_error", Json.str "suite-not-built")]
+Case: {"suite":"time","kind":"unary"|"pair"|"triple","a":{"t":int,"u":"US"|"MS"|"S"},"b":…,"c":…,"k":int}
+Reply: an object with one entry per observation; an EventTime is {"t":int,"u":…},
+a raised exception is {"err":"<class>"}.
+-/
+import ErdosVerif.Driver.Util
+import ErdosVerif.Model.Time
+namespace ErdosVerif.Driver.Time
+open Lean ErdosVerif.Driver ErdosVerif.Model.Time
+
+def getET (j : Json) (k : String) : Except String EventTime := do
+  let o ← fld j k
+  let t ← fldInt o "t"
+  let u ← fldStr o "u"
+  match TUnit.ofName? u with
+  | some u => return ⟨t, u⟩
+  | none => throw s!"bad unit {u}"
+
+def jET (a : EventTime) : Json := Json.mkObj [("t", jInt a.time), ("u", Json.str a.unit.name)]
+
+def jRes {β} (f : β → Json) : Except String β → Json
+  | .ok b => f b
+  | .error e => errJ e
+
+def jBool (b : Bool) : Json := Json.bool b
+
+def unaryObs (p : String) (a : EventTime) : List (String × Json) :=
+  [ (p ++ "to_US", jRes jET (a.to .US)),
+    (p ++ "to_MS", jRes jET (a.to .MS)),
+    (p ++ "to_S", jRes jET (a.to .S)),
+    (p ++ "hash", jRes jInt a.hash),
+    (p ++ "is_invalid", jBool a.isInvalid) ]
+
+def pairObs (p : String) (a b : EventTime) : List (String × Json) :=
+  [ (p ++ "add", jRes jET (a.add b)),
+    (p ++ "sub", jRes jET (a.sub b)),
+    (p ++ "eq", jRes jBool (a.eq b)),
+    (p ++ "ne", jRes jBool (a.ne b)),
+    (p ++ "lt", jRes jBool (a.lt b)),
+    (p ++ "le", jRes jBool (a.le b)),
+    (p ++ "gt", jRes jBool (a.gt b)),
+    (p ++ "ge", jRes jBool (a.ge b)),
+    (p ++ "min", jRes jET (a.min b)),
+    (p ++ "max", jRes jET (a.max b)) ]
+
+def tripleObs (a b c : EventTime) : List (String × Json) :=
+  [ ("add_l", jRes jET (do let x ← a.add b; x.add c)),
+    ("add_r", jRes jET (do let x ← b.add c; a.add x)),
+    ("sub_l", jRes jET (do let x ← a.sub b; x.sub c)),
+    ("sub_r", jRes jET (do let x ← b.add c; a.sub x)),
+    ("lt_ab", jRes jBool (a.lt b)),
+    ("lt_bc", jRes jBool (b.lt c)),
+    ("lt_ac", jRes jBool (a.lt c)),
+    ("eq_ab", jRes jBool (a.eq b)),
+    ("eq_bc", jRes jBool (b.eq c)),
+    ("eq_ac", jRes jBool (a.eq c)) ]
+
+def handleE (j : Json) : Except String Json := do
+  let kind ← fldStr j "kind"
+  match kind with
+  | "unary" =>
+    let a ← getET j "a"
+    let k ← fldInt j "k"
+    return Json.mkObj (unaryObs "" a ++ [("mul", jET (a.mul k)),
+      ("zero", jET EventTime.zero), ("invalid", jET EventTime.invalid)])
+  | "pair" =>
+    let a ← getET j "a"
+    let b ← getET j "b"
+    return Json.mkObj (pairObs "" a b)
+  | "triple" =>
+    let a ← getET j "a"
+    let b ← getET j "b"
+    let c ← getET j "c"
+    return Json.mkObj (tripleObs a b c)
+  | k => throw s!"unknown kind {k}"
+
+/-- Suite handler: one JSON case in, one JSON reply out. -/
+def handle (j : Json) : Json := guardE (handleE j)
 
 end ErdosVerif.Driver.Time
